@@ -42,6 +42,20 @@ SOURCES = [
     'def nested { splitters: uid if route >= 3 { if plan in ("pro", "max") { return "n1" weighted 1, "n2" weighted 1 } else if not route == 5 { return "n3" weighted 2, "n4" weighted 1 } } else { return /* c */ "n5" weighted 1, "n6" weighted 1 } }',
     '/* multi\n line\n comment */ def exp { splitters: uid return "X" weighted 9, "Y" weighted 1 } // trailing',
 ]
+# two revisions that read the SAME fields in swapped roles (the order of the generated parameters differs), and an experiment
+# whose only boundary lies exactly on the position of unit "u0" with a total of 2^96 (exact in doubles: "u0" belongs to "B")
+SOURCES.append('def swap { splitters: uid if plan == "pro" { return "a1" weighted 1, "a2" weighted 1 } else { return "a3" weighted 1, "a4" weighted 2 } }')
+SOURCES.append('def swap { splitters: plan if uid == "u1" { return "b1" weighted 1 } else { return "b2" weighted 1, "b3" weighted 1 } }')
+
+
+def _edge_source():
+    from .. import refbucket
+
+    k = refbucket.published_position(None, {"uid": "u0"})
+    return 'def edge { splitters: uid return "A" weighted %d, "B" weighted %d }' % (k << 64, ((1 << 32) - k) << 64)
+
+
+SOURCES.append(_edge_source())
 INVALID = ['def exp { splitters: uid if plan = "pro" { return "A" weighted 1 } else { return "B" weighted 1 } }',
            "def chain { splitters: uid /* long parse */ " + _chain(40) + " , }",
            'def exp { splitters: uid return "A" weighted 1, "B" weighted 1 } def again { return "x" weighted 1 }']
@@ -253,6 +267,10 @@ def sweep_pairs(ctx):
     # two threads hand the same invalid text to the same evaluator
     for old, t in [(0, 0), (2, 1), (1, 2)]:
         pairs.append(([old], {"k": "recompile_invalid", "ev": 0, "text": t}, {"k": "recompile_invalid", "ev": 0, "text": t}))
+    # revisions that read the same fields in swapped roles, racing with calls; a call on the exact-boundary experiment in a thread
+    pairs.append(([6], {"k": "recompile", "ev": 0, "src": 7}, {"k": "call", "ev": 0, "probe": 1, "times": 2}))
+    pairs.append(([7], {"k": "call", "ev": 0, "probe": 0, "times": 2}, {"k": "recompile", "ev": 0, "src": 6}))
+    pairs.append(([8], {"k": "call", "ev": 0, "probe": 0, "times": 1}, {"k": "construct", "src": 8}))
     # a recompile pre-empted by an unrelated construction, and vice versa
     pairs.append(([0], {"k": "recompile", "ev": 0, "src": 1}, {"k": "construct", "src": 4}))
     pairs.append(([1], {"k": "construct", "src": 0}, {"k": "recompile", "ev": 0, "src": 5}))
@@ -283,7 +301,7 @@ def call_call_cases(ctx):
 def sweep_cases(ctx):
     pairs = sweep_pairs(ctx)
     if ctx.quick:
-        pairs = [pairs[i] for i in (0, 4, 8, 11, 13, 16, 19, 23) if i < len(pairs)]
+        pairs = [pairs[i] for i in (0, 4, 8, 11, 13, 16, 19, 22, 23, 24, 26) if i < len(pairs)]
     for shared, a, b in pairs:
         base = {"shared": shared, "ops": [a, b], "cycle": False}
         total = _lines_alone(dict(base, schedule=[]))
